@@ -131,7 +131,9 @@ func init() {
 		held, _ := n.MarshalText()
 		_, _ = (n + 1234).MarshalText()
 		_, _ = roman.DefaultFormatter(nil, n+77, roman.DefaultFormat)
-		e["held"] = S(held)
+		hs := n.String()
+		_ = (n + 1234).String()
+		e["held"], e["helds"] = S(held), S(hs)
 		e["vs"], e["vR"], e["vr"] = S(fmt.Sprintf("%s", n)), S(fmt.Sprintf("%R", n)), S(fmt.Sprintf("%r", n))
 		e["vL"], e["vl"] = S(fmt.Sprintf("%L", n)), S(fmt.Sprintf("%l", n))
 		var r roman.Number = 987654
@@ -165,6 +167,25 @@ func init() {
 	ops["roman.parse"] = func(e Ev) Ev {
 		in := fromB(e["in"])
 		rule := roman.Rule(num(e["rule"]))
+		var verr error
+		vp := false
+		valid := func() {
+			vp = try(func() {
+				switch str(e["T"]) {
+				case "s":
+					verr = roman.Valid(string(in), rule)
+				case "S":
+					verr = roman.Valid(myStr(in), rule)
+				case "B":
+					verr = roman.Valid(myBytes(in), rule)
+				default:
+					verr = roman.Valid(in, rule)
+				}
+			})
+		}
+		if e["vfirst"] == true { // Valid before the parser
+			valid()
+		}
 		n, err, p := romanParse(in, rule, str(e["T"]))
 		e["panic"] = p
 		e["ok"] = err == nil && !p
@@ -172,19 +193,9 @@ func init() {
 		e["typed"] = err != nil && romanTyped(err)
 		e["is"] = romanIs(err)
 		e["echo"] = err != nil && containsBytes(err.Error(), in)
-		var verr error
-		vp := try(func() {
-			switch str(e["T"]) {
-			case "s":
-				verr = roman.Valid(string(in), rule)
-			case "S":
-				verr = roman.Valid(myStr(in), rule)
-			case "B":
-				verr = roman.Valid(myBytes(in), rule)
-			default:
-				verr = roman.Valid(in, rule)
-			}
-		})
+		if e["vfirst"] != true {
+			valid()
+		}
 		e["panic"] = p || vp
 		e["vok"] = verr == nil && !vp
 		e["vtyped"] = verr != nil && romanTyped(verr)
